@@ -110,7 +110,33 @@ func cmdWireChild(_ []string) {
 			time.Sleep(2 * time.Millisecond)
 		}
 	}()
+	// ... and it keeps one stream connection open (to a stream service of its own), as the work and proxy services do;
+	// the connection follows the unreachable notices for its own socket (conn.go monitorUnreachable)
+	connAddr := ""
+	if li, err := n.Listen("echo", nil); err == nil {
+		go func() {
+			for {
+				c, err := li.Accept()
+				if err != nil {
+					return
+				}
+				go func() { _, _ = io.Copy(io.Discard, c) }()
+			}
+		}()
+		if c, err := n.Dial("victim", "echo", nil); err == nil {
+			connAddr = c.LocalAddr().String()
+			go func() {
+				for {
+					if _, err := c.Write([]byte("x")); err != nil {
+						return
+					}
+					time.Sleep(200 * time.Millisecond)
+				}
+			}()
+		}
+	}
 	b, _ := json.Marshal(ports)
+	fmt.Println("CONN " + connAddr)
 	fmt.Println("PORTS " + string(b))
 	// "g" on stdin: report the number of goroutines; exit when the parent goes away
 	in := bufio.NewScanner(os.Stdin)
@@ -450,6 +476,8 @@ type wireChild struct {
 	good  *framedConn
 	gseq  int // sequence number of the well-behaved peers' own periodic updates
 	gor   chan int
+	// local address ("victim:<ephemeral service>") of the stream connection the child's application keeps open
+	connAddr string
 	goodu *net.UDPConn // a second well-behaved peer, on the UDP listener (one receive goroutine serves all UDP peers)
 	uin   chan []byte
 }
@@ -486,6 +514,9 @@ func startWireChildBin(race bool) (*wireChild, error) {
 			if strings.HasPrefix(sc.Text(), "PORTS ") {
 				_ = json.Unmarshal([]byte(sc.Text()[6:]), &wc.ports)
 				got <- true
+			}
+			if strings.HasPrefix(sc.Text(), "CONN ") {
+				wc.connAddr = strings.TrimPrefix(sc.Text(), "CONN ")
 			}
 			if strings.HasPrefix(sc.Text(), "GOROUTINES ") {
 				var n int
@@ -571,6 +602,10 @@ func (wc *wireChild) probeTCP(timeout time.Duration) bool {
 		// (a session goroutine stuck in the routing code stops reading its link)
 		wc.gseq++
 		if err := wc.good.Send(ruJSON("good", 1000+wc.gseq, fmt.Sprintf("good-p%d", wc.gseq), nil)); err != nil {
+			return false
+		}
+		// ... and, like any node on a path, it relays an unreachable notice now and then (for a service nobody has)
+		if err := wc.good.Send(peer.EncodeData(5, "good", "victim", "unreach", "unreach", []byte(`{"FromNode":"victim","ToNode":"far","FromService":"nobody","ToService":"nosvc","Problem":"service unknown"}`))); err != nil {
 			return false
 		}
 		if err := wc.good.Send(peer.EncodeData(5, "good", "victim", "prb", "ping", nil)); err != nil {
@@ -932,6 +967,13 @@ func runWireStorm(wc *wireChild, d time.Duration) (sig, what string) {
 			return peer.EncodeData(5, "stn", "victim", "unreach", "unreach", []byte(`{"FromNode":"victim","ToNode":"stn","FromService":"probe","ToService":"nosuch","Problem":"service unknown"}`))
 		}},
 	}
+	if i := strings.LastIndex(wc.connAddr, ":"); i > 0 {
+		// forged "service unknown" notices that name the application's stream connection (its remote end knows both names)
+		eph := wc.connAddr[i+1:]
+		roles = append(roles, role{"sts", func(k int) []byte {
+			return peer.EncodeData(5, "sts", "victim", "unreach", "unreach", []byte(fmt.Sprintf(`{"FromNode":"victim","ToNode":"victim","FromService":%q,"ToService":"echo","Problem":"service unknown"}`, eph)))
+		}})
+	}
 	var wg sync.WaitGroup
 	stop := time.Now().Add(d)
 	for _, r := range roles {
@@ -945,6 +987,8 @@ func runWireStorm(wc *wireChild, d time.Duration) (sig, what string) {
 		go func(r role, c *framedConn) {
 			defer wg.Done()
 			defer c.Close()
+			// a node that stops reading this session must not hold the sender for ever
+			_ = c.c.SetWriteDeadline(stop.Add(2 * time.Second))
 			for k := 1; time.Now().Before(stop); k++ {
 				if c.Send(r.make(k)) != nil {
 					return
